@@ -62,8 +62,10 @@ assigns them (`allRepresentable`: homogeneous lists; ints in range of the target
 exactly representable in the target float; floats exactly float32 unless the target is FLOAT): the
 converter's `static_cast_inputs`, eager mode's `dynamic_cast_inputs` and the builder's `_cast_inputs`
 all produce exactly the operands the rule prescribes — same dtype, same rank, same value — or all three
-refuse the call (too many arguments).  The representability hypothesis is forced: see the three
-`…_full_refuted_…` theorems (findings D21, D23, D24). -/
+refuse the call (too many arguments).  The range/float32 parts of the hypothesis are forced: see the two
+`…_full_refuted_…` theorems (findings D21, D23).  "Homogeneous lists" is, since fix fa769b8 (finding D24), a
+limitation of this proof only: on lists mixing Python types the three front ends agree as well
+(`three_agree_dtype` for the element types, `decide` examples below and the per-run tie for the values). -/
 theorem three_agree {κ : Type} [DecidableEq κ] (fs : List (Formal κ)) (args : List Arg)
     (hwt : WellTyped fs args) (hrep : allRepresentable fs args = true) :
     castStatic fs args = expected fs args ∧ castDynamic fs args = expected fs args
@@ -79,17 +81,14 @@ theorem three_agree {κ : Type} [DecidableEq κ] (fs : List (Formal κ)) (args :
     · exact mapE_ok_map _ _ _ (fun p hp => emitDynamic_eq sa hw p (hr p hp))
     · exact mapE_ok_map _ _ _ (fun p hp => emitBuilder_eq sa p (hr p hp))
 
-/-- Every list literal of the call has elements of one Python type. -/
-def AllHomogeneous (args : List Arg) : Prop := ∀ a ∈ args, ∀ l, a = .lit l → l.homogeneous = true
-
-/-- **three_agree_dtype.**  Without any representability hypothesis — out-of-range integers (D21), float literals that
-are not float32 (D23), huge values — the *element type* still agrees: for every signature and every well-typed
-argument list whose list literals are homogeneous, each of the three front ends either raises `OverflowError`
-(NumPy's conversion of an out-of-range Python number; the converter only for literals beyond INT64) or feeds
-operands whose dtypes are exactly those the rule prescribes (and all three refuse together when there are too many
-arguments).  Homogeneity is forced by D24 (`three_agree_full_refuted_mixed_list`). -/
+/-- **three_agree_dtype.**  Without any representability or homogeneity hypothesis — out-of-range integers (D21), float
+literals that are not float32 (D23), lists mixing Python types (D24, fixed by fa769b8), huge values — the *element
+type* agrees: for every signature and every well-typed argument list, each of the three front ends either raises
+`OverflowError` (NumPy's conversion of an out-of-range Python number; the converter only for literals beyond INT64)
+or feeds operands whose dtypes are exactly those the rule prescribes (and all three refuse together when there are too
+many arguments). -/
 theorem three_agree_dtype {κ : Type} [DecidableEq κ] (fs : List (Formal κ)) (args : List Arg)
-    (hwt : WellTyped fs args) (hh : AllHomogeneous args) :
+    (hwt : WellTyped fs args) :
     ∀ r ∈ [castStatic fs args, castDynamic fs args, castBuilder fs args],
       r = .error .overflow ∨ dtypes r = dtypes (expected fs args) := by
   unfold castStatic castDynamic castBuilder expected
@@ -100,12 +99,6 @@ theorem three_agree_dtype {κ : Type} [DecidableEq κ] (fs : List (Formal κ)) (
     subst hr; right; rfl
   | ok sa =>
     have hw := hwt sa ha
-    have hargs := assignFrom_args fs args 0 sa ha
-    have hp : ∀ p ∈ sa, ∀ l, p.2 = .lit l → l.homogeneous = true := by
-      intro p hp l hl
-      apply hh p.2 _ l hl
-      rw [← hargs]
-      exact List.mem_map.mpr ⟨p, hp, rfl⟩
     have key : ∀ (f : Slot κ × Arg → Except Err Out), (∀ p ∈ sa, OvOrDt (f p) (emitExpected sa p).dtype?) →
         mapE f sa = .error .overflow ∨ dtypes (mapE f sa) = dtypes (Except.ok (sa.map (emitExpected sa))) := by
       intro f hf
@@ -115,9 +108,9 @@ theorem three_agree_dtype {κ : Type} [DecidableEq κ] (fs : List (Formal κ)) (
     intro r hr
     simp only [List.mem_cons, List.not_mem_nil, or_false] at hr
     rcases hr with rfl | rfl | rfl
-    · exact key _ (fun p hp' => (emit_dt sa hw p (hp p hp')).1)
-    · exact key _ (fun p hp' => (emit_dt sa hw p (hp p hp')).2.1)
-    · exact key _ (fun p hp' => (emit_dt sa hw p (hp p hp')).2.2)
+    · exact key _ (fun p _ => (emit_dt sa hw p).1)
+    · exact key _ (fun p _ => (emit_dt sa hw p).2.1)
+    · exact key _ (fun p _ => (emit_dt sa hw p).2.2)
 
 /-- `Add(x : FLOAT16, 1)`-shaped witness (two formals sharing `T`). -/
 def sigTT : List (Formal Nat) := [⟨0, true, false, true⟩, ⟨0, true, false, true⟩]
@@ -155,14 +148,8 @@ example : castStatic sigTT [.tensor .uint8 true, .lit (.s (.i (-3)))] = .ok [.pa
 /-- Non-vacuity of `three_agree_dtype` on D21's witness: the converter answers with dtype UINT8 (value wrapped), the
 other two raise — both allowed by the theorem; the rule's dtype is UINT8. -/
 example : dtypes (castStatic sigTT [.tensor .uint8 true, .lit (.s (.i (-3)))]) = some [some .uint8, some .uint8]
-    ∧ dtypes (expected sigTT [.tensor .uint8 true, .lit (.s (.i (-3)))]) = some [some .uint8, some .uint8]
-    ∧ AllHomogeneous [.tensor .uint8 true, .lit (.s (.i (-3)))] := by
-  refine ⟨by decide, by decide, ?_⟩
-  intro a ha l hl
-  simp only [List.mem_cons, List.not_mem_nil, or_false] at ha
-  rcases ha with rfl | rfl
-  · cases hl
-  · cases hl; decide
+    ∧ dtypes (expected sigTT [.tensor .uint8 true, .lit (.s (.i (-3)))]) = some [some .uint8, some .uint8] := by
+  decide
 
 /-- Full statement refuted (finding **D23**): `x : DOUBLE + 0.1` — the converter rounds 0.1 to float32 first
 (`via32 = true`), eager mode and the builder convert the Python float directly. -/
@@ -174,17 +161,29 @@ theorem three_agree_value_full_refuted_float :
     (wellTyped_one_tensor _ _ _ (by intro d k h; cases h))).1
   revert this; decide
 
-/-- Full statement refuted (finding **D24**): the mixed list `[1, 2.5]` beside `x : INT64` is DOUBLE→INT64 `[1, 2]`
-for the converter and eager mode, and refused by the builder; alone (`Reshape`-like second formal `U`) it is
-DOUBLE for the converter, INT64 for eager mode. -/
-theorem three_agree_full_refuted_mixed_list :
-    ¬ (∀ (fs : List (Formal Nat)) (args : List Arg), WellTyped fs args →
-        dtypes (castStatic fs args) = dtypes (castDynamic fs args)
-        ∧ dtypes (castStatic fs args) = dtypes (castBuilder fs args)) := by
-  intro h
-  have := (h sigTT [.tensor .int64 true, .lit (.l (.i 1) [.f false 5 2])]
-    (wellTyped_one_tensor _ _ _ (by intro d k h; cases h))).2
-  revert this; decide
+/-- Finding **D24** (a list mixing Python types), fixed by fa769b8 — the former witnesses now agree: `[1, 2.5]` beside
+`x : INT64` is `[1, 2]` in all three front ends; alone (second formal `U` of a `Reshape`-like signature) it is DOUBLE
+`[1.0, 2.5]` in all three; `[True, 1]` alone is INT64 `[1, 1]`. -/
+example :
+    castDynamic sigTT [.tensor .int64 true, .lit (.l (.i 1) [.f false 5 2])]
+      = castStatic sigTT [.tensor .int64 true, .lit (.l (.i 1) [.f false 5 2])]
+    ∧ castBuilder sigTT [.tensor .int64 true, .lit (.l (.i 1) [.f false 5 2])]
+      = castStatic sigTT [.tensor .int64 true, .lit (.l (.i 1) [.f false 5 2])]
+    ∧ castStatic sigTT [.tensor .int64 true, .lit (.l (.i 1) [.f false 5 2])]
+      = .ok [.pass .int64, .const .int64 true [.i 1, .i 2]] := by decide
+
+example :
+    let sigTU : List (Formal Nat) := [⟨0, true, false, true⟩, ⟨1, true, false, true⟩]
+    let args := [Arg.tensor .float true, .lit (.l (.i 1) [.f false 5 2])]
+    castStatic sigTU args = .ok [.pass .float, .const .double true [.f false 1 1 false, .f false 5 2 false]]
+    ∧ castDynamic sigTU args = castStatic sigTU args ∧ castBuilder sigTU args = castStatic sigTU args
+    ∧ expected sigTU args = castStatic sigTU args := by decide
+
+example :
+    let sigTU : List (Formal Nat) := [⟨0, true, false, true⟩, ⟨1, true, false, true⟩]
+    let args := [Arg.tensor .float true, .lit (.l (.b true) [.i 1])]
+    castStatic sigTU args = .ok [.pass .float, .const .int64 true [.i 1, .i 1]]
+    ∧ castDynamic sigTU args = castStatic sigTU args ∧ castBuilder sigTU args = castStatic sigTU args := by decide
 
 /-! ## Which positional arguments reach `cast_inputs` -/
 
@@ -314,7 +313,7 @@ example :
 
 /-- The tensor a literal denotes under the cache key's dtype (`ir.tensor(value, dtype)`). -/
 def castVals (l : Lit) (dt : Option DType) : Except Err (List SVal) :=
-  mapE (fun s => npCast s ((keyDType l dt).getD .bool)) l.elems
+  mapE (fun s => npCast s ((keyDType l dt).getD (irDefault l))) l.elems
 
 /-- **cache_sound (full).**  For the cache as it is since fix F8 (key `(repr(value), dtype)`): for every cache whose
 entries hold the tensors of their own keys (`CacheOk`, an invariant: true of the empty cache and re-established
@@ -328,7 +327,7 @@ theorem cache_sound (c : Cache) (hc : CacheOk c) (l : Lit) (dt : Option DType) (
   | false => rw [promote_refused c l dt ha] at h; cases h
   | true =>
     unfold castVals
-    cases hm : mapE (fun s => npCast s ((keyDType l dt).getD .bool)) l.elems with
+    cases hm : mapE (fun s => npCast s ((keyDType l dt).getD (irDefault l))) l.elems with
     | error e0 => rw [promote_error c hc l dt ha e0 hm] at h; cases h
     | ok vs =>
       obtain ⟨c1, e1, hp, hv, _, hok⟩ := promote_ok c hc l dt ha vs hm
@@ -403,47 +402,5 @@ example : ∃ c' e, promote (promoteAll [] [(.s (.f false 0 1), none)]) (.s (.f 
     ∧ Except.ok e.vals = castVals (.s (.f true 0 1)) none := by
   refine ⟨_, _, rfl, ?_⟩
   decide
-
-/-- What the pre-fix cache did guarantee: soundness for literals without negative zero (`l.SI`), including hits on
-merely `==`-equal keys (`True`/`1`/`1.0`). -/
-theorem cache_sound_prefix_partial (c : Cache) (hc : CacheOkPre c) (l : Lit) (dt : Option DType) (c' : Cache)
-    (e : Entry) (h : promotePre c l dt = .ok (c', e))
-    (hl : l.WF ∧ l.SI ∧ LitModelled l ((keyDType l dt).getD .bool)) :
-    valsEqv (.ok e.vals) (castVals l dt) ∧ CacheOkPre c' := by
-  unfold promotePre promoteBy at h
-  by_cases ha : builderAccepts l
-  · simp only [ha, Bool.not_true, Bool.false_eq_true, if_false] at h
-    cases hf : c.findBy pyEq l (keyDType l dt) with
-    | some e0 =>
-      rw [hf] at h
-      simp only [Except.ok.injEq, Prod.mk.injEq] at h
-      obtain ⟨rfl, rfl⟩ := h
-      unfold Cache.findBy at hf
-      have hmem := List.mem_of_find?_eq_some hf
-      have hp := List.find?_some hf
-      simp only [Bool.and_eq_true, beq_iff_eq] at hp
-      obtain ⟨h1, h2, h3, h4, h5⟩ := hc e0 hmem
-      have hd : e0.dtype = (keyDType l dt).getD .bool := by rw [h2, hp.2]
-      refine ⟨?_, hc⟩
-      have := pyEq_cast_same e0.key l ((keyDType l dt).getD .bool) ⟨h3, h4, hd ▸ h5⟩ hl hp.1
-      rw [← hd, h1] at this
-      rw [hd] at this
-      exact this
-    | none =>
-      rw [hf] at h
-      cases hm : mapE (fun e => npCast e ((keyDType l dt).getD .bool)) l.elems with
-      | error err => simp [hm] at h
-      | ok vs =>
-        simp only [hm, Except.ok.injEq, Prod.mk.injEq] at h
-        obtain ⟨rfl, rfl⟩ := h
-        refine ⟨?_, ?_⟩
-        · unfold castVals; rw [hm]; exact valsEqv_refl vs
-        · intro e he
-          rcases List.mem_append.mp he with he | he
-          · exact hc e he
-          · simp only [List.mem_singleton] at he
-            subst he
-            exact ⟨hm, rfl, hl.1, hl.2.1, hl.2.2⟩
-  · simp [ha] at h
 
 end OV.Props.C12
